@@ -40,6 +40,9 @@ let fault_name = function
   | Null_deref -> "Null_deref" | Use_after_free -> "Use_after_free" | Bad_free -> "Bad_free"
   | Out_of_fuel -> "Out_of_fuel" | Int_overflow -> "Int_overflow" | Abort -> "Abort"
 
+let show_res f = function Ok a -> f a | Fault x -> "FAULT:" ^ fault_name x
+let b2s b = if b then "1" else "0"
+
 let split_ws (s : string) : string list =
   List.filter (fun x -> x <> "") (String.split_on_char ' ' (String.trim s))
 
